@@ -62,6 +62,7 @@ Definition dec_hop (l : list Z) : hop * list Z :=
   | 10 :: t => let '(p, r) := dec_pev t in (HPodDelete p, r)
   | 11 :: t => let '(s, r) := dec_spec t in (HReserveRsv s (hdZ r), tl r)
   | 12 :: t => let '(s, r) := dec_spec t in (HUnreserveRsv s (hdZ r), tl (tl r))
+  | 13 :: pu :: t => let '(req, r) := dec_res t in (HSchedule pu req (hdZ r) (hdZ (tl r)), tl (tl r))
   | _ => (HRsvRemove 0 0, [])
   end.
 
@@ -73,7 +74,8 @@ Definition enc_iview (v : iview) : list Z :=
    bz (v_matchable v); bz (v_gate v)]
   ++ Z.of_nat (length (v_assigned v))
      :: flat_map (fun q : Z * list Z => fst q :: snd q) (v_assigned v)
-  ++ encode_list (v_names v) ++ v_allocated v ++ v_reserved v ++ v_allocatable v.
+  ++ encode_list (v_names v) ++ v_allocated v ++ v_reserved v ++ v_allocatable v
+  ++ v_policy v :: v_cap v.
 
 Definition enc_idx (ix : idx) : list Z :=
   Z.of_nat (length ix) :: flat_map (fun e : Z * list Z => fst e :: encode_list (snd e)) ix.
@@ -98,8 +100,9 @@ Definition dec_iview (l : list Z) : iview * list Z :=
     let '(al, t3) := take_n D t2 in
     let '(rs, t4) := take_n D t3 in
     let '(ab, t5) := take_n D t4 in
-    (mkIview uid node (zb av) (zb pe) (zb on) (zb te) (zb ma) (zb ga) asg names al rs ab, t5)
-  | _ => (mkIview 0 0 false false false false false false [] [] [] [] [], [])
+    let '(cp, t6) := take_n D (tl t5) in
+    (mkIview uid node (zb av) (zb pe) (zb on) (zb te) (zb ma) (zb ga) asg names al rs ab (hdZ t5) cp, t6)
+  | _ => (mkIview 0 0 false false false false false false [] [] [] [] [] 0 [], [])
   end.
 
 Definition dec_entry (l : list Z) : (Z * list Z) * list Z :=
